@@ -77,7 +77,8 @@ def run(sid, props, tier, in_place=False):
     d = os.path.join(SEEDED, sid)
     meta = json.load(open(os.path.join(d, 'meta.json')))
     props = props or [meta.get('property')]
-    env = dict(os.environ, VERIF_SEED=os.environ.get('VERIF_SEED', '1'))
+    env = dict(os.environ, VERIF_SEED=os.environ.get('VERIF_SEED', '1'),
+               VERIF_EVIDENCE_DIR=os.path.join(VERIF, 'work', 'evidence_seeded'))   # never overwrite the clean-tree evidence
     if in_place:
         assert repo_clean(), '/repo has uncommitted changes'
         target = '/repo'
